@@ -20,6 +20,25 @@ type KnownFinding struct {
 	Commit     string `json:"commit,omitempty"`
 }
 
+// engineLemmas: every lemma the SMT preamble states as an axiom is proved here from the definitions alone, on every run.
+func engineLemmas() *FuncReport {
+	ring := `(set-logic ALL)
+(declare-fun ringidx (Int Int Int) Int)
+(assert (forall ((h Int) (l Int) (k Int)) (! (= (ringidx h l k) (ite (< (+ h k) l) (+ h k) (- (+ h k) l))) :pattern ((ringidx h l k)))))
+(declare-const h Int)
+(declare-const l Int)
+(declare-const a Int)
+(declare-const b Int)
+(assert (and (<= 0 h) (< h l) (<= 0 a) (<= 0 b) (<= (+ a b) l)))
+(assert (not (= (ringidx (ringidx h l a) l b) (ringidx h l (+ a b)))))
+(check-sat)
+`
+	return &FuncReport{Key: "engine.lemma", Decls: newDecls(), Obligations: []*Obligation{
+		{Name: "engine.lemma/ring_compose", Kind: "lemma", Func: "engine.lemma", Expect: "unsat", Raw: ring, Goal: "lemma",
+			Info: "ringidx(ringidx(h,l,a),l,b) == ringidx(h,l,a+b): the composition axiom of the preamble follows from the definition"},
+	}}
+}
+
 func readPropMap(path string) (map[string][]string, error) {
 	m := map[string][]string{}
 	data, err := os.ReadFile(path)
@@ -55,6 +74,7 @@ func main() {
 	listFlag := flag.Bool("list", false, "list obligations only")
 	verbose := flag.Bool("v", false, "print every obligation with its answer and time")
 	noCache := flag.Bool("nocache", false, "disable the result cache")
+	writeBase := flag.Bool("writebaseline", false, "record the generated obligation names of this property in obligations.baseline.json")
 	flag.Parse()
 	seed := int64(0)
 	if s := os.Getenv("VERIF_SEED"); s != "" {
@@ -116,7 +136,11 @@ func main() {
 	for _, k := range keyList {
 		reports = append(reports, v.verifyFunc(k))
 	}
+	reports = append(reports, engineLemmas())
 	match := func(name string) bool {
+		if strings.HasPrefix(name, "engine.lemma/") {
+			return true
+		}
 		for _, p := range patterns {
 			if globMatch(p, name) {
 				return true
@@ -168,6 +192,23 @@ func main() {
 		for _, r := range results {
 			os.WriteFile(filepath.Join(*dump, sanitize(r.Name)+".smt2"), []byte(r.Query), 0o644)
 		}
+	}
+	if *writeBase && *prop != "" {
+		path := filepath.Join(*verifDir, "obligations.baseline.json")
+		base := map[string][]string{}
+		if data, err := os.ReadFile(path); err == nil {
+			json.Unmarshal(data, &base)
+		}
+		var names []string
+		for _, r := range results {
+			if r != nil && r.Kind != "vacuity" {
+				names = append(names, r.Name)
+			}
+		}
+		sort.Strings(names)
+		base[*prop] = names
+		data, _ := json.MarshalIndent(base, "", " ")
+		os.WriteFile(path, data, 0o644)
 	}
 	code := report(v, *prop, *tier, seed, *verifDir, reports, results, solver, time.Since(t0), patterns)
 	solver.close()
